@@ -74,7 +74,7 @@ fn expected_outputs(m : &Result<model::ModelResult, model::GraphError>) -> BTree
 }
 
 /* the recovery build from `disk`; returns its violations and the observation */
-fn recover(case : &Case, rules : &[SRule], disk : &Disk, clock : u64, rsched : SchedSpec, whence : &str, prefix : &str, victim : usize, record : bool) -> (Vec<Violation>, Option<(Inv, Vec<CrashPoint>)>)
+fn recover(case : &Case, rules : &[SRule], disk : &Disk, clock : u64, rsched : SchedSpec, whence : &str, prefix : &str, victim : usize, record : bool, continuation : bool) -> (Vec<Violation>, Option<(Inv, Vec<CrashPoint>)>)
 {
     let mut vs = vec![];
     let world = World::from_disk(case.knobs.clone(), RULER_DIR, disk.clone(), clock);
@@ -98,6 +98,48 @@ fn recover(case : &Case, rules : &[SRule], disk : &Disk, clock : u64, rsched : S
             let mut audit = vec![];
             audit_cache(&rinv.after, "after recovery", &mut audit);
             for a in audit { vs.push(Violation{ prop : "C11", sig : format!("C11:{}after-recovery:{}", prefix, a.sig), detail : format!("{}: {}", whence, a.detail) }); }
+
+            // "the state left on disk is one from which the next build completes successfully and
+            // satisfies C01" — C01 quantifies over what comes after, too: for a share of the images
+            // the recovered workspace goes through clean + build and through edit + build + revert +
+            // build, and must stay correct and content-addressed
+            if continuation && vs.len() == 0
+            {
+                let leaves : Vec<String> = match &rinv.model { Ok(m) => m.leaves.clone(), Err(_) => vec![] };
+                let mut follow : Vec<(&str, bool, Option<(String, Vec<u8>)>)> = vec![("clean", false, None), ("build after clean", true, None)];
+                if let Some(l) = leaves.first()
+                {
+                    let old = world.read(l).map(|a| (*a).clone()).unwrap_or(vec![]);
+                    let mut new = old.clone();
+                    new.extend_from_slice(b"~");
+                    follow.push(("build after editing a source", true, Some((l.clone(), new))));
+                    follow.push(("build after reverting the source", true, Some((l.clone(), old))));
+                }
+                for (what, is_build, write) in follow
+                {
+                    if let Some((p, c)) = &write { world.user_write(p, c); }
+                    let before = world.snapshot().0;
+                    let reader = { let d = before.clone(); move |p : &str| d.read(p).map(|a| (*a).clone()) };
+                    let m2 = model::evaluate(rules, None, &reader);
+                    let res2 = invoke(&world, is_build, None, case.rulefile_paths(), SchedSpec::serial());
+                    let after2 = world.snapshot().0;
+                    let inv2 = Inv{ op_index : victim, is_build : is_build, goal : None, rules : rules.to_vec(), before : before, after : after2, res : res2, model : m2 };
+                    if inv2.res.verdict != Verdict::Ok
+                    {
+                        vs.push(Violation{ prop : "C11", sig : format!("C11:{}later-invocation-failed:{}", prefix, hist::sig_of_verdict(&inv2.res.verdict)),
+                            detail : format!("{}: the recovery build succeeded, but the following {} returned {}", whence, what, inv2.res.verdict.short()) });
+                        break;
+                    }
+                    for v in oracle_c01(&inv2)
+                    {
+                        vs.push(Violation{ prop : "C11", sig : v.sig.replace("C01:", &format!("C11:{}later-build-wrong:", prefix)), detail : format!("{}: {}: {}", whence, what, v.detail) });
+                    }
+                    let mut audit = vec![];
+                    audit_cache(&inv2.after, what, &mut audit);
+                    for a in audit { vs.push(Violation{ prop : "C11", sig : format!("C11:{}later:{}", prefix, a.sig), detail : format!("{}: {}", whence, a.detail) }); }
+                    if vs.len() > 0 { break; }
+                }
+            }
         },
         other =>
         {
@@ -244,7 +286,10 @@ pub fn explore(case : &Case, caps : &Caps, only : Option<(u32, Option<u32>, Opti
         let mut first_recovery : Option<(Inv, Vec<CrashPoint>)> = None;
         for (ri, rsched) in recoveries.into_iter().enumerate()
         {
-            let (v, obs) = recover(case, &rules, &disk, cp.clock + 10, rsched, &whence, "", victim, want_second && ri == 0);
+            // the continuation is deterministic in the crash state (no PRNG), so replays take it too
+            let continuation = ri == 0 && !want_second && (cp.index as usize + torn.unwrap_or(0) as usize) % 3 == 0;
+            let (v, obs) = recover(case, &rules, &disk, cp.clock + 10, rsched, &whence, "", victim, want_second && ri == 0, continuation);
+            if continuation { if let Some(s) = stats.as_deref_mut() { s.inc("c11.recoveries_followed_by_clean_build_edit_revert"); } }
             if let Some(s) = stats.as_deref_mut()
             {
                 s.inc("evaluations"); s.inc("c11.recovery_builds");
@@ -311,7 +356,7 @@ pub fn explore(case : &Case, caps : &Caps, only : Option<(u32, Option<u32>, Opti
                             match t2 { Some(n) => format!(", {} bytes of the write applied", n), None => "".to_string() });
                         let mut ex2 = 0u64;
                         let mut vs2 = examine_image(&disk2, &whence2, &base2, &target_paths, &exp2, &rcps[..j], "second-kill:", &mut ex2);
-                        let (v, _) = recover(case, &rules, &disk2, q.clock + 10, SchedSpec::serial(), &whence2, "second-kill:", victim, false);
+                        let (v, _) = recover(case, &rules, &disk2, q.clock + 10, SchedSpec::serial(), &whence2, "second-kill:", victim, false, false);
                         vs2.extend(v);
                         if let Some(s) = stats.as_deref_mut()
                         {
